@@ -13,6 +13,7 @@ import (
 	"strings"
 	"sync"
 	"testing"
+	"time"
 
 	"github.com/bluenviron/gomavlib/v3/pkg/conversion"
 	"pgregory.net/rapid"
@@ -61,6 +62,12 @@ var chdirMu sync.Mutex
 // convert runs the real generator on the model's XML files inside a fresh directory and returns
 // the directory holding the generated package.
 func convert(d XDialect, dir string) (string, error) {
+	return convertIn(d, dir, nil)
+}
+
+// convertIn: with zone != nil the conversion runs while the process's local time zone is that zone (the same
+// definition converted on another continent, or after midnight: the same files come out).
+func convertIn(d XDialect, dir string, zone *time.Location) (string, error) {
 	must(os.MkdirAll(dir, 0o755))
 	for _, f := range d.Files {
 		must(os.MkdirAll(filepath.Dir(filepath.Join(dir, f.Name+".xml")), 0o755))
@@ -72,6 +79,11 @@ func convert(d XDialect, dir string) (string, error) {
 	must(err)
 	must(os.Chdir(dir))
 	defer os.Chdir(old) //nolint:errcheck
+	if zone != nil {
+		saved := time.Local
+		time.Local = zone
+		defer func() { time.Local = saved }()
+	}
 	// silence "processing definition" chatter
 	devnull, _ := os.OpenFile(os.DevNull, os.O_WRONLY, 0)
 	stderr := os.Stderr
@@ -656,7 +668,7 @@ func snakeInvertible(name string) bool {
 }
 
 func TestC18Generator(t *testing.T) {
-	rec := evid.New(t, "C18", "XML documents printed from a random dialect model (messages with ids up to 2^24-1, scalar/array/char[n]/scalar char/uint8_t_mavlink_version/enum-typed fields, extension marker at every position, non-snake-case field names, ordinary and bitmask enums with decimal/0x/0b/a**b values, include graphs with diamonds and enums extended by the includer, <version> present/absent) are converted by the real conversion.Convert, compiled with go build, and a probe linked against the generated packages dumps ids, CRC_EXTRA, sizes, per-field one-hot encodings, constants and enum text behaviour; all compared with expectations derived from the model; generating twice must give identical trees; definitions with an unknown field type, a malformed enum value or message name must be refused; non-trivial = document with an extension block, an include, a mavname-requiring field or a non-decimal enum value; distinct by hash of the XML")
+	rec := evid.New(t, "C18", "XML documents printed from a random dialect model (messages with ids up to 2^24-1, scalar/array/char[n]/scalar char/uint8_t_mavlink_version/enum-typed fields, extension marker at every position, non-snake-case field names, ordinary and bitmask enums with decimal/0x/0b/a**b values, include graphs with diamonds and enums extended by the includer, <version> present/absent) are converted by the real conversion.Convert, compiled with go build, and a probe linked against the generated packages dumps ids, CRC_EXTRA, sizes, per-field one-hot encodings, constants and enum text behaviour; all compared with expectations derived from the model; generating twice must give identical trees (the first conversion runs with the local time zone at UTC-12, the second at UTC+14 - another calendar day at any hour - and the command-line tool at UTC+14 as well); definitions with an unknown field type, a malformed enum value or message name must be refused; non-trivial = document with an extension block, an include, a mavname-requiring field or a non-decimal enum value; distinct by hash of the XML")
 	rec.Require("extension", "include", "mavname-field", "non-decimal-enum-value", "leading-zero-decimal", "negative-refused", "bitmask-enum", "enum-field", "scalar-char", "enum-extended-by-includer", "cli-binary-compared", "ordinary-enum-with-power-of-two-values", "bitmask-enum-with-multi-bit-entry", "enum-field-of-a-rarely-supported-integer-type", "array-of-128-or-more-elements")
 	root := scratch(t)
 	defer os.RemoveAll(root)
@@ -692,7 +704,7 @@ func TestC18Generator(t *testing.T) {
 				injectDefect(t, &d)
 			}
 			sub := filepath.Join(caseDir, fmt.Sprintf("g%d", i))
-			pkgDir, err := convert(d, filepath.Join(root, sub))
+			pkgDir, err := convertIn(d, filepath.Join(root, sub), time.FixedZone("far-west", -12*3600))
 			if err != nil && strings.HasPrefix(err.Error(), "PANIC") {
 				fail(d, "generator panicked: %v", err)
 			}
@@ -730,7 +742,8 @@ func TestC18Generator(t *testing.T) {
 				fail(d, "valid definition refused: %v", err)
 			}
 			// generate a second time elsewhere: identical trees
-			pkgDir2, err2 := convert(d, filepath.Join(root, caseDir, fmt.Sprintf("again%d", i)))
+			// ... in a process whose local date differs from the first one's whatever the hour is (zones 26 h apart)
+			pkgDir2, err2 := convertIn(d, filepath.Join(root, caseDir, fmt.Sprintf("again%d", i)), time.FixedZone("far-east", 14*3600))
 			if err2 != nil {
 				fail(d, "second generation failed: %v", err2)
 			}
@@ -741,7 +754,7 @@ func TestC18Generator(t *testing.T) {
 			}
 			for name, b1 := range t1 {
 				if !bytes.Equal(b1, t2[name]) {
-					fail(d, "generating twice gives different contents for %s", name)
+					fail(d, "generating twice (the second time with the local time zone 26 hours ahead of the first) gives different contents for %s", name)
 				}
 			}
 			os.RemoveAll(filepath.Join(root, caseDir, fmt.Sprintf("again%d", i)))
@@ -755,6 +768,7 @@ func TestC18Generator(t *testing.T) {
 				}
 				cmd := exec.Command(cli, d.Files[0].Name+".xml")
 				cmd.Dir = cdir
+				cmd.Env = append(os.Environ(), "TZ=Pacific/Kiritimati") // UTC+14; the in-process conversion ran at UTC-12
 				if out, err := cmd.CombinedOutput(); err != nil {
 					fail(d, "dialect-import refused a valid definition: %v\n%s", err, out)
 				}
